@@ -13,8 +13,8 @@ import lib
 
 COQ_TARGETS = ["theories/Model/GraphEq.vo", "theories/Proofs/GraphLemmas.vo", "theories/Proofs/GraphTermination.vo",
                "theories/Proofs/TopoLemmas.vo"]
-THEOREMS = ["C09_terminates", "C09_acyclic", "C09_order", "C09_flags", "C09_string_alias", "C09_denotes",
-            "C09_refuted_subscripted", "C09_refuted_nested", "C09_input_forms"]
+THEOREMS = ["C09_terminates", "C09_order", "C09_flags", "C09_string_alias", "C09_denotes",
+            "C09_refuted_nested", "C09_refuted_acyclic", "C09_input_forms"]
 FINDINGS = os.path.join(lib.VERIF, "findings.d", "C09.json")
 
 
@@ -392,6 +392,11 @@ def names(ref, m) -> bool:
             if isinstance(v, str):
                 cands.add(v)
                 cands.add(v.rsplit(".", 1)[-1])
+    q = getattr(m, "__qualname__", None)
+    if isinstance(q, str):
+        parts = q.split(".")
+        for i in range(len(parts)):
+            cands.add(".".join(parts[i:]))
     s = str(m)
     cands.add(s)
     cands.add(s.split("[", 1)[0].rsplit(".", 1)[-1])
